@@ -44,6 +44,34 @@ class Rec(random.Random):
         return r
 
 
+class Forced(Rec):
+    """generator whose primitive results are dictated by the harness (boundary draws): the i-th primitive call after a
+    seed() returns data[i] reduced into the legal range"""
+    def __init__(self, data):
+        self.data = list(data) or [0]
+        self.pos = 0
+        super().__init__()
+
+    def seed(self, a=None, version=2):
+        self.pos = 0
+        super().seed(a, version)
+
+    def _take(self):
+        v = self.data[self.pos % len(self.data)]
+        self.pos += 1
+        return v
+
+    def random(self):
+        k = self._take() % TWO53
+        self.log.append([0, k])
+        return k / TWO53
+
+    def _randbelow(self, n):
+        r = self._take() % n
+        self.log.append([n, r])
+        return r
+
+
 class StubRng:
     def __init__(self, u):
         self.u = u
@@ -145,8 +173,9 @@ def run_ops(p, ops):
 def case_script(c):
     out = {}
     g0 = gstate()
+    forced = c.get("forced")
     p = build(c["spec"])
-    rec = Rec()
+    rec = Rec() if forced is None else Forced(forced)
     p.rng = rec
     p.seed(c["seed"])
     rec.epochs[:] = [rec.log]
@@ -154,11 +183,15 @@ def case_script(c):
     out["epochs"] = rec.epochs
     out["global_touched"] = gstate() != g0
     q = build(c["spec"])
+    if forced is not None:
+        q.rng = Forced(forced)
     q.seed(c["seed"])
     out["plain"] = run_ops(q, c["ops"])
     refs = {}
     for s in c.get("refs", {}).get("seeds", []):
         f = build(c["spec"])
+        if forced is not None:
+            f.rng = Forced(forced)
         f.seed(s)
         refs[str(s)] = run_ops(f, ["next"] * c["refs"]["n"])
     out["refs"] = refs
